@@ -158,20 +158,25 @@ def eventsSame : List PEvent → List PEvent → Bool
   | x :: xs, y :: ys => x.host.idx == y.host.idx && x.chan == y.chan && Cmd.same x.cmd y.cmd && eventsSame xs ys
   | _, _ => false
 
-/-- well-formed cases: every machine is an instance of its own class, and clones have the class
-of their original -/
-def Case.wf (c : Case) : Bool :=
-  c.hosts.all (fun h => h.mro.contains h.cls)
-    && c.hosts.all (fun x => c.hosts.all (fun y => x.orig != y.orig || x.cls == y.cls))
+/-- well-formed machine sets: every machine is an instance of its own class, and clones have the
+class of their original -/
+def hostsWf (hs : List Host) : Bool :=
+  hs.all (fun h => h.mro.contains h.cls)
+    && hs.all (fun x => hs.all (fun y => x.orig != y.orig || x.cls == y.cls))
+
+def Case.wf (c : Case) : Bool := hostsWf c.hosts
+
+/-- an observation is what is wanted -/
+def holds (w : Want) (o : Obs) : Bool :=
+  match w with
+  | .fail => o.err.isSome && o.events.isEmpty
+  | .cmds l => o.err.isNone && eventsSame o.events l
 
 end Ssh
 
 namespace Spec
 
 /-- C20 on one case -/
-def C20 (c : Ssh.Case) (o : Ssh.Obs) : Bool :=
-  match Ssh.want c with
-  | .fail => o.err.isSome && o.events.isEmpty
-  | .cmds l => o.err.isNone && Ssh.eventsSame o.events l
+def C20 (c : Ssh.Case) (o : Ssh.Obs) : Bool := Ssh.holds (Ssh.want c) o
 
 end Spec
